@@ -264,6 +264,49 @@ class Ctx:
             self.failed_stages.append(('axioms', 'Print Assumptions missing for some theorem in ' + vfile))
             return False
         self.cov['discharged'] += len(thms)
+        if self.tier == 'thorough' and os.environ.get('VERIF_COQCHK', '1') != '0':
+            if not self.coqchk(vfile):
+                return False
+        return True
+
+    def coqchk(self, vfile, timeout=1500):
+        """thorough tier: re-check the compiled property file and everything it depends on with the
+        independent checker, and read the axioms it reports (Print Assumptions covers the theorem,
+        coqchk -o covers every loaded library)"""
+        mod = 'PV.' + vfile[:-2].replace('/', '.')
+        t = time.time()
+        try:
+            p = subprocess.run(['timeout', str(timeout), 'coqchk', '-o', '-silent', '-Q', COQ, 'PV', mod],
+                               stdout=subprocess.PIPE, stderr=subprocess.STDOUT, text=True, cwd=COQ)
+        except OSError as ex:
+            self.cov['stages']['coqchk'] = {'ran': False, 'why': str(ex)}
+            return True
+        out = strip_noise(p.stdout)
+        info = {'module': mod, 'wall_s': round(time.time() - t, 1), 'rc': p.returncode}
+        if p.returncode == 124:
+            info['result'] = 'timeout (not counted as a failure)'
+            self.cov['stages']['coqchk'] = info
+            return True
+        m = re.search(r'\* Axioms:(.*?)\n\s*\n\* ', out, re.S)
+        axioms = []
+        if m and '<none>' not in m.group(1):
+            axioms = [a.strip() for a in m.group(1).strip().splitlines() if a.strip()]
+        info['axioms'] = axioms
+        unsafe = []
+        for key in ('type-in-type', 'unsafe (co)fixpoints', 'positivity is assumed'):
+            mm = re.search(re.escape(key) + r':(.*?)(?:\n\s*\n|$)', out, re.S)
+            if mm and '<none>' not in mm.group(1):
+                unsafe.append(key)
+        info['unsafe'] = unsafe
+        self.cov['stages']['coqchk'] = info
+        bad = [a for a in axioms if a.split()[0].split('.')[-1] not in ALLOWED_AXIOMS
+               and a.split()[0] not in ALLOWED_AXIOMS]
+        if p.returncode != 0 or unsafe or bad:
+            self.log('COQCHK problem:', out[-1500:])
+            self.failed_stages.append(('coqchk', 'rc=%s unsafe=%s axioms=%s' % (p.returncode, unsafe, bad)))
+            return False
+        self.cov['trusted_base'] = self.cov.get('trusted_base', []) + [
+            'coqchk -o on %s: axioms %s' % (mod, axioms or 'none')]
         return True
 
     # ---- cases in coqc
